@@ -159,8 +159,8 @@ NamedOf(g, x, f(_)) ==
   [i \in 1..Len(Keys) |->
      IF \E e \in g.named[x] : e[1] = Keys[i] THEN f((CHOOSE e \in g.named[x] : e[1] = Keys[i])[2]) ELSE Absent]
 Val(g, wv, x) ==
-  IF g.kind[x] = "const" THEN <<"c", x>>
-  ELSE IF x \in wv THEN <<"wv", x>>
+  IF x \in wv THEN <<"wv", x>>                     \* a supplied value wins, also over a constant's own value
+  ELSE IF g.kind[x] = "const" THEN <<"c", x>>
   ELSE LET named == NamedOf(g, x, LAMBDA p : Val(g, wv, p))
            extras == [i \in 1..Len(Keys) |->
               IF Keys[i] = "batch_size" /\ UsesBS(g.kind[x]) THEN <<"BS">>
